@@ -873,6 +873,10 @@ def run(ctx: Ctx):
         "option eps = 0.0 is not swept (a zero tolerance in float arithmetic is outside sensible input; observation in "
         "corpus/C04/observations/eps_zero.json: solve_milp(..., eps=0.0) can answer INFEASIBLE for a feasible problem); eps is swept over "
         "1e-9, 1e-7, 1e-6",
+        "cost vectors whose coefficients differ by a ratio > 1e6 (2^40 + a unit cost) are observation-only (family observation:cost-ratio, "
+        "histogram observation_only_rejects): since commit 39737f0 solve_lp scales the objective row and a cost below 1e-10 * max|c| no "
+        "longer enters - solve_lp([-1, 5497558138881], [[1,0],[0,1]], [2,2]) -> OPTIMAL 0, optimum -2 (corpus/C04/observations/"
+        "cost_ratio_2e12.json); badly scaled in the sense of the property's quantifier (coordinator's decision)",
         "LP kernel tolerance: _solve_node calls solve_lp with eps = min(eps, 1e-10) (commit cccee4d); the model instance is "
         "simplex_kernel (lp_eps eps)",
         "eps = 0: histogram 'eps0_same_result' counts the explored runs on which the model with eps = 0 (the instance for which the C03 "
@@ -949,6 +953,10 @@ def run(ctx: Ctx):
             ctx.count("opt_solution_limit", var["solution_limit"])
             ctx.count("opt_warm", "none" if var["warm_start"] is None else "given")
             ctx.count("opt_limits", ("iter" if var["max_iter"] is not None else "") + ("nodes" if var["max_nodes"] is not None else "") or "default")
+            if bad and inst.get("family", "").startswith("observation:"):
+                # badly scaled inputs outside the property's quantifier: counted, never a violation
+                ctx.count("observation_only_rejects", inst["family"] + ": " + " ".join(bad.split()[:4]))
+                continue
             if bad:
                 ctx.count("oracle_rejects", inst.get("family", "?").split(":")[0] + ": " + " ".join(bad.split()[:4]))
                 if not reported and len(ctx.violations) < 5 and (not small_enough(inst) or inst.get("known") is not None):
@@ -1002,7 +1010,7 @@ def run(ctx: Ctx):
         if small_enough(inst):
             gate_cases.append(coq_case(inst, _norm_var({}), {"status": "OPTIMAL", "solution": None, "objective": 0.0, "nodes": 0, "solutions": None}))
             gate_metas.append(inst)
-        if grp and not reported and len(ctx.violations) < 8:
+        if grp and not reported and len(ctx.violations) < 8 and not inst.get("family", "").startswith("observation:"):
             var, what = grp
             ctx.violation(f"solve_milp: {what}", {"kind": "milp-group", **{k: v for k, v in inst.items() if k != "known"}, "options": var, "all_options": variants,
                                                    "impl": outs, "exact_verdict": [str(v) for v in tr[:2]]})
